@@ -258,9 +258,60 @@ func c02state(c *core.Ctx, r *core.Reporter, read *ssa.Function) {
 				r.Hold(rule, "slip.(reader).read|phi:rangeindex", c.Pos(read.Pos()), "range index")
 				continue
 			}
-			r.Violate(rule, "slip.(reader).read|phi:"+phi.Comment, c.Pos(phi.Pos()), fmt.Sprintf("local %q is live across iterations of the byte loop: its value is lost when a token straddles two stream blocks", phi.Comment))
+			if !influencesLoop(phi, byteLoop) {
+				r.Hold(rule, "slip.(reader).read|phi:"+phi.Comment, c.Pos(phi.Pos()), "a pure accumulator: inside the loop its value is only combined arithmetically with itself (it is consumed after the loop), so it carries no lexer state")
+				continue
+			}
+			r.Violate(rule, "slip.(reader).read|phi:"+phi.Comment, c.Pos(phi.Pos()), fmt.Sprintf("local %q is live across iterations of the byte loop and steers it: its value is lost when a token straddles two stream blocks", phi.Comment))
 		}
 	}
+}
+
+// influencesLoop: the value of a loop-header phi reaches, inside the loop, anything other than
+// arithmetic that only feeds the phi itself (a comparison, a call, a store, an index ...).
+func influencesLoop(phi *ssa.Phi, l *core.Loop) bool {
+	seen := map[ssa.Value]bool{}
+	work := []ssa.Value{phi}
+	for len(work) > 0 {
+		v := work[len(work)-1]
+		work = work[:len(work)-1]
+		if seen[v] {
+			continue
+		}
+		seen[v] = true
+		refs := v.Referrers()
+		if refs == nil {
+			continue
+		}
+		for _, in := range *refs {
+			if !l.Blocks[in.Block()] {
+				continue
+			}
+			switch x := in.(type) {
+			case *ssa.Phi:
+				work = append(work, x)
+			case *ssa.Convert:
+				work = append(work, x)
+			case *ssa.ChangeType:
+				work = append(work, x)
+			case *ssa.BinOp:
+				switch x.Op {
+				case token.EQL, token.NEQ, token.LSS, token.LEQ, token.GTR, token.GEQ:
+					return true
+				}
+				work = append(work, x)
+			case *ssa.UnOp:
+				if x.Op == token.MUL || x.Op == token.ARROW {
+					return true
+				}
+				work = append(work, x)
+			case *ssa.DebugRef:
+			default:
+				return true
+			}
+		}
+	}
+	return false
 }
 
 // c02carry: who reads the source block relative to tokenStart.
